@@ -1,10 +1,374 @@
 import EpModel.Driver.Util
-/- part of the `enc.*` family (stub; filled in by the owner). -/
+import EpModel.Model.Codec.LinkEth
+import EpModel.Model.Codec.LinkArp
+import EpModel.Model.Codec.TpUdpTcp
+import EpModel.Model.Codec.TpIcmp
+import EpModel.Model.Codec.TpIgmp
+/- `enc.<type>.*` operations of the link / ARP / transport half of C08.
+
+   enc.<t>.to_bytes <fields…> <tail-hex>
+       → ok(b=<hex>,w=same|<hex>|na,s=same|<hex>|err…|na,len=<header_len>,dec=<from_slice(b++tail)>)
+         or err(...) when a checked constructor rejects a field value
+   enc.<t>.from_slice <hex>
+       → ok(<fields>,rest=(off,len),re=<to_bytes of the decoded value>,again=same|<second decode>)
+         or err(...)
+   enc.<t>.wslice <fields…> <cap>      (eth2, sll: write_to_slice into a buffer of cap bytes)
+       → ok(written=<hex>,rest=<len>) / err(space(...))
+-/
 namespace EpModel.Driver.EncLink
-open EpModel EpModel.Driver
+open EpModel EpModel.Driver EpModel.Codec
+
+/-! ### argument parsing -/
+
+def argLt (lim : Nat) (s : String) : Option Nat := do
+  let n ← argNat s
+  if n < lim then some n else none
+def argU8 := argLt 256
+def argU16 := argLt 65536
+def argU32 := argLt 4294967296
+def argU64 := argLt 18446744073709551616
+def argBool (s : String) : Option Bool := if s = "1" then some true else if s = "0" then some false else none
+def argHexN (n : Nat) (s : String) : Option Bytes := do
+  let b ← argHex s
+  if b.length = n then some b else none
+def argList (s : String) : List String := if s = "-" then [] else s.splitOn ","
+def argBits (n : Nat) (s : String) : Option (List Bool) := do
+  let cs := s.toList
+  if cs.length ≠ n then none
+  else cs.mapM (fun c => if c = '1' then some true else if c = '0' then some false else none)
+
+def sb (b : Bool) : String := if b then "1" else "0"
+def hx (b : Bytes) : String := hexOfBytes b
+
+/-! ### generic result lines -/
+
+def decStr {α} (shw : α → String) (total : Nat) : Except Err (α × Bytes) → String
+  | .error e => e.render
+  | .ok (h, rest) => s!"ok({shw h},rest={showWin (total - rest.length) rest.length})"
+
+/-- the `to_bytes` line. `w`: second serialiser (`write`, or the documented alternative path),
+    `ws`: `write_to_slice` into a buffer of exactly `header_len` bytes. -/
+def encLine {α} (shw : α → String) (toBytes : α → Bytes) (w : Option (α → Bytes))
+    (ws : Option (α → Nat → Except Err (Bytes × Nat))) (headerLen : α → Nat)
+    (fromSlice : Bytes → Except Err (α × Bytes)) (h : α) (tail : Bytes) : String :=
+  let b := toBytes h
+  let wS := match w with
+    | none => "na"
+    | some f => if f h = b then "same" else hx (f h)
+  let sS := match ws with
+    | none => "na"
+    | some f => match f h (headerLen h) with
+      | .error e => e.render
+      | .ok (wr, restLen) => if wr = b ∧ restLen = 0 then "same" else s!"{hx wr}+{restLen}"
+  let all := b ++ tail
+  s!"ok(b={hx b},w={wS},s={sS},len={headerLen h},dec={decStr shw all.length (fromSlice all)})"
+
+def fromLine {α} (shw : α → String) (toBytes : α → Bytes)
+    (fromSlice : Bytes → Except Err (α × Bytes)) (b : Bytes) : String :=
+  match fromSlice b with
+  | .error e => e.render
+  | .ok (h, rest) =>
+    let first := s!"{shw h},rest={showWin (b.length - rest.length) rest.length}"
+    let re := toBytes h
+    let b2 := re ++ rest
+    let again := match fromSlice b2 with
+      | .error e => e.render
+      | .ok (h2, rest2) =>
+        let s2 := s!"{shw h2},rest={showWin (b2.length - rest2.length) rest2.length}"
+        if s2 = first then "same" else s!"ok({s2})"
+    s!"ok({first},re={hx re},again={again})"
+
+def wsliceLine : Except Err (Bytes × Nat) → String
+  | .error e => e.render
+  | .ok (wr, restLen) => s!"ok(written={hx wr},rest={restLen})"
+
+/-! ### per type: rendering and value construction -/
+
+def showEth2 (h : Eth2) : String := s!"dst={hx h.dst},src={hx h.src},et={h.et}"
+def mkEth2 : List String → Option Eth2
+  | [d, s, e] => do pure { dst := ← argHexN 6 d, src := ← argHexN 6 s, et := ← argU16 e }
+  | _ => none
+
+def showVlan (h : Vlan) : String := s!"pcp={h.pcp},dei={sb h.dei},vid={h.vid},et={h.et}"
+def mkVlan : List String → Option (Except Err Vlan)
+  | [p, d, v, e] => do pure (Vlan.mk? (← argU8 p) (← argBool d) (← argU16 v) (← argU16 e))
+  | _ => none
+
+def showSllProto : SllProto → String
+  | .ignored v => s!"ign({v})"
+  | .netlink v => s!"netlink({v})"
+  | .gre v => s!"gre({v})"
+  | .etherType v => s!"et({v})"
+  | .nonstd v => s!"nonstd({v})"
+def showSll (h : Sll) : String :=
+  s!"pt={h.ptype},hrd={h.hrd},alen={h.alen},addr={hx h.addr},proto={showSllProto h.proto}"
+def mkSll : List String → Option (Except Err Sll)
+  | [pt, hrd, alen, addr, tag, v] => do
+    let pt ← argU16 pt; let hrd ← argU16 hrd; let alen ← argU16 alen
+    let addr ← argHexN 8 addr; let v ← argU16 v
+    let proto : Except Err SllProto ← match tag with
+      | "ign" => some (.ok (.ignored v))
+      | "netlink" => some (.ok (.netlink v))
+      | "gre" => some (.ok (.gre v))
+      | "et" => some (.ok (.etherType v))
+      | "nonstd" => some (if isNonstdEtherType v then .ok (.nonstd v) else .error (.other "nonstd"))
+      | _ => none
+    pure (do
+      let pt ← Sll.ptypeTryFrom pt
+      let proto ← proto
+      pure { ptype := pt, hrd := hrd, alen := alen, addr := addr, proto := proto })
+  | _ => none
+
+def showMacsec (h : Macsec) : String :=
+  let p := match h.ptype with
+    | .unmodified et => s!"unmod({et})" | .modified => "mod" | .encrypted => "enc"
+    | .encryptedUnmodified => "encunmod"
+  let sci := match h.sci with | none => "none" | some s => s!"some({s})"
+  s!"ptype={p},es={sb h.es},scb={sb h.scb},an={h.an},sl={h.sl},pn={h.pn},sci={sci}"
+def mkMacsec : List String → Option (Except Err Macsec)
+  | [p, et, es, scb, an, sl, pn, sci] => do
+    let et ← argU16 et
+    let p ← match p with
+      | "unmod" => some (MacsecPType.unmodified et) | "mod" => some .modified
+      | "enc" => some .encrypted | "encunmod" => some .encryptedUnmodified | _ => none
+    let sci ← if sci = "none" then some none else (argU64 sci).map some
+    pure (Macsec.mk? p (← argBool es) (← argBool scb) (← argU8 an) (← argU8 sl) (← argU32 pn) sci)
+  | _ => none
+
+def showArp (h : Arp) : String :=
+  s!"hw={h.hw},proto={h.proto},op={h.op},hs={h.hwSize},ps={h.protoSize},shw={hx (h.shw.take h.hwSize)},sp={hx (h.sp.take h.protoSize)},thw={hx (h.thw.take h.hwSize)},tp={hx (h.tp.take h.protoSize)}"
+def mkArp : List String → Option (Except Err Arp)
+  | [hw, pr, op, a, b, c, d] => do
+    pure (Arp.new (← argU16 hw) (← argU16 pr) (← argU16 op) (← argHex a) (← argHex b) (← argHex c) (← argHex d))
+  | _ => none
+
+def showArpEth (h : ArpEth) : String :=
+  s!"op={h.op},smac={hx h.smac},sip={hx h.sip},tmac={hx h.tmac},tip={hx h.tip}"
+def mkArpEth : List String → Option ArpEth
+  | [op, a, b, c, d] => do
+    pure { op := ← argU16 op, smac := ← argHexN 6 a, sip := ← argHexN 4 b, tmac := ← argHexN 6 c, tip := ← argHexN 4 d }
+  | _ => none
+
+def showUdp (h : Udp) : String := s!"sp={h.sp},dp={h.dp},len={h.len},ck={h.ck}"
+def mkUdp : List String → Option Udp
+  | [a, b, c, d] => do pure { sp := ← argU16 a, dp := ← argU16 b, len := ← argU16 c, ck := ← argU16 d }
+  | _ => none
+
+def showTcp (h : Tcp) : String :=
+  let fl := String.join ([h.ns, h.fin, h.syn, h.rst, h.psh, h.ackf, h.urg, h.ece, h.cwr].map sb)
+  s!"sp={h.sp},dp={h.dp},seq={h.seq},ack={h.ack},fl={fl},win={h.win},ck={h.ck},urg={h.urgp},doff={h.opts.dataOffset % 256},opts={hx h.opts.asSlice}"
+def mkTcp : List String → Option (Except Err Tcp)
+  | [sp, dp, seq, ack, fl, win, ck, urg, opts] => do
+    let sp ← argU16 sp; let dp ← argU16 dp; let seq ← argU32 seq; let ack ← argU32 ack
+    let win ← argU16 win; let ck ← argU16 ck; let urg ← argU16 urg; let opts ← argHex opts
+    match ← argBits 9 fl with
+    | [ns, fin, syn, rst, psh, ackf, urgf, ece, cwr] =>
+      pure (do
+        let o ← TcpOpts.tryFromSlice opts
+        pure { sp := sp, dp := dp, seq := seq, ack := ack, ns := ns, fin := fin, syn := syn, rst := rst,
+               psh := psh, ackf := ackf, urg := urgf, ece := ece, cwr := cwr, win := win, ck := ck,
+               urgp := urg, opts := o })
+    | _ => none
+  | _ => none
+
+def showIcmp4 (h : Icmp4) : String :=
+  let t := match h.ty with
+    | .unknown t c b => s!"unknown({t},{c},{hx b})"
+    | .echoReply i s => s!"echoreply({i},{s})"
+    | .destUnreach c m => s!"du({c},{m})"
+    | .redirect c g => s!"redirect({c},{hx g})"
+    | .echoRequest i s => s!"echoreq({i},{s})"
+    | .timeExceeded c => s!"te({c})"
+    | .paramProblem c p => s!"pp({c},{p})"
+    | .tsRequest i s o r t => s!"tsreq({i},{s},{o},{r},{t})"
+    | .tsReply i s o r t => s!"tsreply({i},{s},{o},{r},{t})"
+  s!"ty={t},ck={h.ck}"
+/-- value construction through the crate's constructors: `DestUnreachableHeader::from_values`,
+    `RedirectCode::from_u8`, `TimeExceededCode::from_u8`, `ParameterProblemHeader::from_values`
+    return `None` for an unknown code (printed `err(code)`); `from_values` drops the unused field. -/
+def mkIcmp4 : List String → Option (Except Err Icmp4)
+  | [ck, v, args] => do
+    let ck ← argU16 ck
+    let ty : Except Err Icmp4Type ← match v, argList args with
+      | "unknown", [t, c, b] => do pure (.ok (.unknown (← argU8 t) (← argU8 c) (← argHexN 4 b)))
+      | "echoreply", [i, s] => do pure (.ok (.echoReply (← argU16 i) (← argU16 s)))
+      | "echoreq", [i, s] => do pure (.ok (.echoRequest (← argU16 i) (← argU16 s)))
+      | "du", [c, m] => do
+        let c ← argU8 c; let m ← argU16 m
+        pure (if c ≤ 15 then .ok (.destUnreach c (if c = 4 then m else 0)) else .error (.other "code"))
+      | "redirect", [c, g] => do
+        let c ← argU8 c; let g ← argHexN 4 g
+        pure (if c ≤ 3 then .ok (.redirect c g) else .error (.other "code"))
+      | "te", [c] => do
+        let c ← argU8 c
+        pure (if c ≤ 1 then .ok (.timeExceeded c) else .error (.other "code"))
+      | "pp", [c, p] => do
+        let c ← argU8 c; let p ← argU8 p
+        pure (if c ≤ 2 then .ok (.paramProblem c (if c = 0 then p else 0)) else .error (.other "code"))
+      | "tsreq", [i, s, o, r, t] => do
+        pure (.ok (.tsRequest (← argU16 i) (← argU16 s) (← argU32 o) (← argU32 r) (← argU32 t)))
+      | "tsreply", [i, s, o, r, t] => do
+        pure (.ok (.tsReply (← argU16 i) (← argU16 s) (← argU32 o) (← argU32 r) (← argU32 t)))
+      | _, _ => none
+    pure (ty.map fun t => { ty := t, ck := ck })
+  | _ => none
+
+def showIcmp6 (h : Icmp6) : String :=
+  let t := match h.ty with
+    | .unknown t c b => s!"unknown({t},{c},{hx b})"
+    | .destUnreach c => s!"du({c})"
+    | .packetTooBig m => s!"ptb({m})"
+    | .timeExceeded c => s!"te({c})"
+    | .paramProblem c p => s!"pp({c},{p})"
+    | .echoRequest i s => s!"echoreq({i},{s})"
+    | .echoReply i s => s!"echoreply({i},{s})"
+    | .routerSolicitation => "rs"
+    | .routerAdvertisement c m o l => s!"ra({c},{sb m},{sb o},{l})"
+    | .neighborSolicitation => "ns"
+    | .neighborAdvertisement r s o => s!"na({sb r},{sb s},{sb o})"
+    | .redirect => "redirect"
+  s!"ty={t},ck={h.ck}"
+def mkIcmp6 : List String → Option (Except Err Icmp6)
+  | [ck, v, args] => do
+    let ck ← argU16 ck
+    let ty : Except Err Icmp6Type ← match v, argList args with
+      | "unknown", [t, c, b] => do pure (.ok (.unknown (← argU8 t) (← argU8 c) (← argHexN 4 b)))
+      | "du", [c] => do
+        let c ← argU8 c
+        pure (if c ≤ 6 then .ok (.destUnreach c) else .error (.other "code"))
+      | "ptb", [m] => do pure (.ok (.packetTooBig (← argU32 m)))
+      | "te", [c] => do
+        let c ← argU8 c
+        pure (if c ≤ 1 then .ok (.timeExceeded c) else .error (.other "code"))
+      | "pp", [c, p] => do
+        let c ← argU8 c; let p ← argU32 p
+        pure (if c ≤ 10 then .ok (.paramProblem c p) else .error (.other "code"))
+      | "echoreq", [i, s] => do pure (.ok (.echoRequest (← argU16 i) (← argU16 s)))
+      | "echoreply", [i, s] => do pure (.ok (.echoReply (← argU16 i) (← argU16 s)))
+      | "rs", [] => some (.ok .routerSolicitation)
+      | "ra", [c, m, o, l] => do
+        pure (.ok (.routerAdvertisement (← argU8 c) (← argBool m) (← argBool o) (← argU16 l)))
+      | "ns", [] => some (.ok .neighborSolicitation)
+      | "na", [r, s, o] => do pure (.ok (.neighborAdvertisement (← argBool r) (← argBool s) (← argBool o)))
+      | "redirect", [] => some (.ok .redirect)
+      | _, _ => none
+    pure (ty.map fun t => { ty := t, ck := ck })
+  | _ => none
+
+def showIgmp (h : Igmp) : String :=
+  let t := match h.ty with
+    | .membershipQuery m g => s!"query({m},{hx g})"
+    | .membershipQueryWithSources m g r q n => s!"querysrc({m},{hx g},{r},{q},{n})"
+    | .membershipReportV1 g => s!"reportv1({hx g})"
+    | .membershipReportV2 g => s!"reportv2({hx g})"
+    | .membershipReportV3 f n => s!"reportv3({hx f},{n})"
+    | .leaveGroup g => s!"leave({hx g})"
+    | .unknown t r raw => s!"unknown({t},{r},{hx raw})"
+  s!"ty={t},ck={h.ck}"
+def mkIgmp : List String → Option Igmp
+  | [ck, v, args] => do
+    let ck ← argU16 ck
+    let ty : IgmpType ← match v, argList args with
+      | "query", [m, g] => do pure (.membershipQuery (← argU8 m) (← argHexN 4 g))
+      | "querysrc", [m, g, r, q, n] => do
+        pure (.membershipQueryWithSources (← argU8 m) (← argHexN 4 g) (← argU8 r) (← argU8 q) (← argU16 n))
+      | "reportv1", [g] => do pure (.membershipReportV1 (← argHexN 4 g))
+      | "reportv2", [g] => do pure (.membershipReportV2 (← argHexN 4 g))
+      | "reportv3", [f, n] => do pure (.membershipReportV3 (← argHexN 2 f) (← argU16 n))
+      | "leave", [g] => do pure (.leaveGroup (← argHexN 4 g))
+      | "unknown", [t, r, raw] => do pure (.unknown (← argU8 t) (← argU8 r) (← argHexN 4 raw))
+      | _, _ => none
+    pure { ty := ty, ck := ck }
+  | _ => none
+
+def showIgmpRec (h : IgmpRec) : String :=
+  s!"rt={h.recordType},aux={h.auxDataLen},n={h.numSources},addr={hx h.addr}"
+def mkIgmpRec : List String → Option IgmpRec
+  | [a, b, c, d] => do
+    pure { recordType := ← argU8 a, auxDataLen := ← argU8 b, numSources := ← argU16 c, addr := ← argHexN 4 d }
+  | _ => none
+
+/-! ### dispatch -/
+
+/-- split the last argument off. -/
+def splitLast (args : List String) : Option (List String × String) :=
+  match args.reverse with
+  | [] => none
+  | l :: r => some (r.reverse, l)
+
+def withValue {α} (v : Option (Except Err α)) (k : α → String) : Option String :=
+  v.map fun r => match r with
+    | .error e => e.render
+    | .ok h => k h
 
 def run (op : String) (args : List String) : Option String :=
-  match op, args with
-  | _, _ => none
+  match op with
+  | "enc.eth2.to_bytes" => do
+    let (f, t) ← splitLast args; let t ← argHex t; let h ← mkEth2 f
+    pure (encLine showEth2 Eth2.toBytes (some Eth2.writeOut) (some Eth2.writeToSlice) Eth2.headerLen Eth2.fromSlice h t)
+  | "enc.eth2.from_slice" => do
+    match args with | [b] => pure (fromLine showEth2 Eth2.toBytes Eth2.fromSlice (← argHex b)) | _ => none
+  | "enc.eth2.wslice" => do
+    let (f, c) ← splitLast args; let c ← argNat c; let h ← mkEth2 f
+    pure (wsliceLine (Eth2.writeToSlice h c))
+  | "enc.vlan.to_bytes" => do
+    let (f, t) ← splitLast args; let t ← argHex t
+    withValue (mkVlan f) fun h => encLine showVlan Vlan.toBytes (some Vlan.writeOut) none Vlan.headerLen Vlan.fromSlice h t
+  | "enc.vlan.from_slice" => do
+    match args with | [b] => pure (fromLine showVlan Vlan.toBytes Vlan.fromSlice (← argHex b)) | _ => none
+  | "enc.sll.to_bytes" => do
+    let (f, t) ← splitLast args; let t ← argHex t
+    withValue (mkSll f) fun h => encLine showSll Sll.toBytes (some Sll.writeOut) (some Sll.writeToSlice) Sll.headerLen Sll.fromSlice h t
+  | "enc.sll.from_slice" => do
+    match args with | [b] => pure (fromLine showSll Sll.toBytes Sll.fromSlice (← argHex b)) | _ => none
+  | "enc.sll.wslice" => do
+    let (f, c) ← splitLast args; let c ← argNat c
+    withValue (mkSll f) fun h => wsliceLine (Sll.writeToSlice h c)
+  | "enc.macsec.to_bytes" => do
+    let (f, t) ← splitLast args; let t ← argHex t
+    withValue (mkMacsec f) fun h => encLine showMacsec Macsec.toBytes (some Macsec.writeOut) none Macsec.headerLen Macsec.fromSlice h t
+  | "enc.macsec.from_slice" => do
+    match args with | [b] => pure (fromLine showMacsec Macsec.toBytes Macsec.fromSlice (← argHex b)) | _ => none
+  | "enc.arp.to_bytes" => do
+    let (f, t) ← splitLast args; let t ← argHex t
+    withValue (mkArp f) fun h => encLine showArp Arp.toBytes (some Arp.writeOut) none Arp.headerLen Arp.fromSlice h t
+  | "enc.arp.from_slice" => do
+    match args with | [b] => pure (fromLine showArp Arp.toBytes Arp.fromSlice (← argHex b)) | _ => none
+  | "enc.arpeth.to_bytes" => do
+    let (f, t) ← splitLast args; let t ← argHex t; let h ← mkArpEth f
+    pure (encLine showArpEth ArpEth.toBytes (some ArpEth.writeOut) none ArpEth.headerLen ArpEth.fromSlice h t)
+  | "enc.arpeth.from_slice" => do
+    match args with | [b] => pure (fromLine showArpEth ArpEth.toBytes ArpEth.fromSlice (← argHex b)) | _ => none
+  | "enc.udp.to_bytes" => do
+    let (f, t) ← splitLast args; let t ← argHex t; let h ← mkUdp f
+    pure (encLine showUdp Udp.toBytes (some Udp.writeOut) none Udp.headerLen Udp.fromSlice h t)
+  | "enc.udp.from_slice" => do
+    match args with | [b] => pure (fromLine showUdp Udp.toBytes Udp.fromSlice (← argHex b)) | _ => none
+  | "enc.tcp.to_bytes" => do
+    let (f, t) ← splitLast args; let t ← argHex t
+    withValue (mkTcp f) fun h => encLine showTcp Tcp.toBytes (some Tcp.writeOut) none Tcp.headerLen Tcp.fromSlice h t
+  | "enc.tcp.from_slice" => do
+    match args with | [b] => pure (fromLine showTcp Tcp.toBytes Tcp.fromSlice (← argHex b)) | _ => none
+  | "enc.icmpv4.to_bytes" => do
+    let (f, t) ← splitLast args; let t ← argHex t
+    withValue (mkIcmp4 f) fun h => encLine showIcmp4 Icmp4.toBytes (some Icmp4.writeOut) none Icmp4.headerLen Icmp4.fromSlice h t
+  | "enc.icmpv4.from_slice" => do
+    match args with | [b] => pure (fromLine showIcmp4 Icmp4.toBytes Icmp4.fromSlice (← argHex b)) | _ => none
+  | "enc.icmpv6.to_bytes" => do
+    let (f, t) ← splitLast args; let t ← argHex t
+    withValue (mkIcmp6 f) fun h => encLine showIcmp6 Icmp6.toBytes (some Icmp6.writeOut) none Icmp6.headerLen Icmp6.fromSlice h t
+  | "enc.icmpv6.from_slice" => do
+    match args with | [b] => pure (fromLine showIcmp6 Icmp6.toBytes Icmp6.fromSlice (← argHex b)) | _ => none
+  | "enc.igmp.to_bytes" => do
+    let (f, t) ← splitLast args; let t ← argHex t; let h ← mkIgmp f
+    pure (encLine showIgmp Igmp.toBytes none none Igmp.headerLen Igmp.fromSlice h t)
+  | "enc.igmp.from_slice" => do
+    match args with | [b] => pure (fromLine showIgmp Igmp.toBytes Igmp.fromSlice (← argHex b)) | _ => none
+  | "enc.igmprec.to_bytes" => do
+    let (f, t) ← splitLast args; let t ← argHex t; let h ← mkIgmpRec f
+    pure (encLine showIgmpRec IgmpRec.toBytes none none IgmpRec.headerLen IgmpRec.fromSlice h t)
+  | "enc.igmprec.from_slice" => do
+    match args with | [b] => pure (fromLine showIgmpRec IgmpRec.toBytes IgmpRec.fromSlice (← argHex b)) | _ => none
+  | _ => none
 
 end EpModel.Driver.EncLink
